@@ -55,6 +55,7 @@ def build(it: Interp, with_bwd: bool) -> Tuple[AbstractGraph, Dict[str, Obj]]:
     n9 = mk("add", "call_function", E("torch.add"), (n8, n1), scale="s3", gscale="g3")
     cmp_ = mk("cmp", "call_function", E("torch.eq"), (n6, n5), flt=False)  # non-float, two float inputs: no bypass
     mix = mk("mix", "call_function", E("torch.add"), (n6, n5), scale="s3", gscale="g3")  # same scale as n6 but two float inputs
+    mk("aux_unused", "call_function", E("torch.mul"), (n6, 2), scale="s4", gscale="g2")  # a tracked tensor nobody consumes: must survive
     mk("output", "output", "output", ((n9, n4, cmp_, mix),), flt=False)
     return g, N
 
